@@ -24,7 +24,7 @@ def post(lines, verdicts):
     if len(sk) > max(3, len(e) // 50):
         out.append(("diff", sk[0], "diff e2e tie not exercised: %d of %d E scenarios could not run (%s)"
                     % (len(sk), len(e), sk[0].split("|", 1)[1].strip()[:80])))
-    floors = {"T": 40, "B": 4, "C": 7, "E": 8}
+    floors = {"T": 40, "B": 4, "C": 9, "E": 8}
     for k, n in floors.items():
         have = [ln for ln in _kind(lines, k) if "| skip-env" not in ln]
         if len(have) < n:
@@ -35,6 +35,9 @@ def post(lines, verdicts):
     for arm in ("ahead", "plus1", "preepoch"):
         if _metric(verdicts, lines, "C", arm) < 500:
             out.append(("diff", "C", "diff tie not exercised: compute_next arm '%s' executed fewer than 500 times under the scripted clock" % arm))
+    if _metric(verdicts, lines, "C", "panics") < 3:
+        out.append(("diff", "C", "diff tie not exercised: the overflow of the warning branch (reading >= 2^63 us with a warning "
+                                 "configuration) was reached fewer than 3 times"))
     if _metric(verdicts, lines, "E", "resent") < 20:
         out.append(("diff", "E", "diff tie not exercised: fewer than 20 requests were re-sent after UNPREPARED"))
     for pace in ("5", "6", "7"):
@@ -50,6 +53,7 @@ def extra_coverage(lines, verdicts):
         "scripted_clock_calls_reading_above_last": _metric(verdicts, lines, "C", "ahead"),
         "scripted_clock_calls_reading_not_above_last": _metric(verdicts, lines, "C", "plus1"),
         "scripted_clock_calls_reading_before_epoch": _metric(verdicts, lines, "C", "preepoch"),
+        "scripted_clock_calls_panicking_in_the_warning_branch_as_modelled": _metric(verdicts, lines, "C", "panics"),
         "e2e_requests_resent_after_unprepared": _metric(verdicts, lines, "E", "resent"),
         "e2e_scenarios_not_run_env": sum(1 for ln in _kind(lines, "E") if "| skip-env" in ln),
     }
@@ -90,9 +94,9 @@ SPEC = {
         "static link time); CLOCK_REALTIME readings are scripted, all other clocks are forwarded to libc via dlsym(RTLD_NEXT)",
         "overflow guard of every C18 theorem: all clock readings (as i64) <= B and B + N*M < i64::MAX "
         "(C18_overflow_witness shows the model wraps to i64::MIN without it; in Rust: panic or wrap)",
-        "the warning branch of compute_next (i64 `last - u_cur`, last_warning mutex) is not modelled; it cannot change "
-        "the result unless that subtraction overflows (u_cur < last - i64::MAX, i.e. a reading that wraps to a very "
-        "negative i64); the scripted readings beyond i64::MAX are only used with warnings disabled",
+        "of the warning branch of compute_next only the i64 subtraction `last - u_cur` is modelled (compute_next_checked: "
+        "panic under overflow checks for a reading >= 2^63 us, C18_warn_sub_safe otherwise); the last_warning mutex, the "
+        "interval test and the log line are not; the harness is built with overflow-checks = true",
     ],
 }
 
